@@ -138,6 +138,8 @@ class ECKey(CurveKey[EllipticCurvePrivateKey, EllipticCurvePublicKey]):
         return None
 
     def exchange_derive_key(self, key: "ECKey") -> bytes:
+        if not isinstance(key, ECKey):
+            raise InvalidExchangeKeyError()
         pubkey = key.get_op_key("deriveKey")
         if self.private_key and self.curve_name == key.curve_name:
             return self.private_key.exchange(ECDH(), pubkey)
